@@ -477,6 +477,26 @@ pub fn gen_many_files(rng: &mut Rng, n: usize, long_lived: usize, max_piece: usi
     ops
 }
 
+/// A valid history in which two or three files alternate tiny pieces so that one file ends up with `runs`
+/// non-contiguous runs (each run costs an 8-byte offset in the index): counts beyond 255 / 65535.
+pub fn gen_many_runs(rng: &mut Rng, runs: usize) -> Vec<WOp> {
+    let nf = rng.range(2, 3) as usize;
+    let mut ops: Vec<WOp> = (0..nf).map(|f| WOp::Start { f, name: Name::lit(&format!("r{f}")) }).collect();
+    for k in 0..runs {
+        for f in 0..nf {
+            if f == 0 || rng.chance(2, 3) {
+                let n = if f > 0 && rng.chance(1, 8) { 0 } else { rng.range(1, 3) as usize };
+                ops.push(WOp::Append { f, data: Data::Period { n, p: 1 + (k + f) % 250 }, src: Src::exact() });
+            }
+        }
+    }
+    for f in 0..nf {
+        ops.push(WOp::End { f });
+    }
+    ops.push(WOp::Finalize);
+    ops
+}
+
 /// Recipient counts one or two orders of magnitude above the usual 1..4 (the header then no longer fits a
 /// page, the key list no longer a small vector): with probability 1/den on an encrypted configuration.
 pub fn maybe_many_recipients(rng: &mut Rng, cfg: &mut ArcCfg, den: u64) {
